@@ -24,44 +24,73 @@ def run(ctx, R, tier):
 
 
 def mix(F, R):
+    from ..paths import origin_def
     n = 0
     for e in MIXING:
         b = F.body('<%s as effect::Effect>::process' % e)
         if not R.check(b is not None, 'B.C13.mix', 'anchor:' + e, 'process not found'):
             continue
-        # the store of the mixed frame: an Add of two Mul<f32> with sqrt factors
         tails = []
         for bb, si, s in b.stmts():
-            if s['k'] == 'assign' and s['lhs']['p'] and s['lhs']['p'][0][0] == 'deref':
-                d = describe_rv(b, s['rv'], depth=24, at=bb)
-                if d.startswith('<frame::Frame as std::ops::Add>::add(') and 'sqrt(' in d:
-                    tails.append((bb, s, d))
+            if s['k'] == 'assign' and s['lhs']['p'] and s['lhs']['p'][0][0] == 'deref' and s['rv']['k'] == 'use':
+                d, _ = origin_def(b, s['rv']['op'])
+                if d and d[0] == 'call' and callee_path(d[2]) == '<frame::Frame as std::ops::Add>::add':
+                    tails.append((bb, s, d[2]))
+        tails = [t for t in tails if has_sqrt(b, t[2])]
         if not R.check(len(tails) == 1, 'B.C13.mix', e + ':tail-site', '%d wet/dry stores found in %s' % (len(tails), e)):
             continue
         n += 1
-        bb, s, d = tails[0]
+        bb, s, add = tails[0]
         dst = pretty_place(b, s['lhs'])
-        ok = True
-        why = ''
-        import re
-        m = re.search(r"core::f32::<impl f32>::clamp\((.*?), 0\.0, 1\.0\)", d)
-        if not m or 'interpolated_value(&(*self).mix' not in m.group(1) or not m.group(1).endswith('.0'):
-            ok = False
-            why = 'mix is not interpolated_value(self.mix).0.clamp(0.0, 1.0)'
-        mixd = m.group(0) if m else '?'
-        wet = 'std::f32::<impl f32>::sqrt(%s)' % mixd
-        dry = 'std::f32::<impl f32>::sqrt(Sub(1.0, %s))' % mixd
-        if ok and not (wet + ')' in d and dry in d):
-            ok = False
-            why = 'the blend is not wet*sqrt(mix) + dry*sqrt(1 - mix)'
-        # the dry term multiplies the destination frame itself (the unmodified input of this iteration)
-        if ok:
-            second = d[d.index(wet) + len(wet):]
-            if not re.search(r"<frame::Frame as std::ops::Mul<f32>>::mul\(\(\*.*?\), " + re.escape(dry), second):
-                ok = False
-                why = 'the dry term is not the input frame'
-        R.check(ok, 'B.C13.mix', e, '%s: %s (%s)' % (e, why, d[:200]), detail={'effect': e, 'mix': mixd[:120]}, where=b.where(bb))
+        why = check_tail(b, add, dst)
+        R.check(why is None, 'B.C13.mix', e, '%s: %s' % (e, why), detail={'effect': e, 'blend': 'wet*sqrt(mix) + dry*sqrt(1-mix), mix = self.mix.clamp(0,1)'},
+                where=b.where(bb))
     R.floor('B.C13.mix', n, 5)
+
+
+def has_sqrt(b, add):
+    from ..paths import origin_def
+    for a in add['args']:
+        d, _ = origin_def(b, a)
+        if d and d[0] == 'call' and (callee_path(d[2]) or '').endswith('Mul<f32>>::mul'):
+            d2, _ = origin_def(b, d[2]['args'][1])
+            if d2 and d2[0] == 'call' and (callee_path(d2[2]) or '').endswith('f32>::sqrt'):
+                return True
+    return False
+
+
+def check_tail(b, add, dst):
+    """None if `add` is wet*sqrt(mix) + dst*sqrt(1 - mix) with mix = interpolated_value(self.mix).0.clamp(0,1)."""
+    from ..paths import origin_def
+    terms = []
+    for a in add['args']:
+        d, _ = origin_def(b, a)
+        if not (d and d[0] == 'call' and (callee_path(d[2]) or '') == '<frame::Frame as std::ops::Mul<f32>>::mul'):
+            return 'a blend term is not Frame * f32'
+        sq, _ = origin_def(b, d[2]['args'][1])
+        if not (sq and sq[0] == 'call' and (callee_path(sq[2]) or '').endswith('f32>::sqrt')):
+            return 'a blend factor is not a square root'
+        terms.append((d[2]['args'][0], sq[2]['args'][0]))
+    (wet_src, wet_arg), (dry_src, dry_arg) = terms
+    wd, mix_local = origin_def(b, wet_arg)
+    if not (wd and wd[0] == 'call' and (callee_path(wd[2]) or '') == 'core::f32::<impl f32>::clamp'):
+        return 'the wet factor is not sqrt(mix.clamp(..))'
+    lo, hi = describe(b, wd[2]['args'][1]), describe(b, wd[2]['args'][2])
+    if (lo, hi) != ('0.0', '1.0'):
+        return 'mix is clamped to [%s, %s]' % (lo, hi)
+    src = describe(b, wd[2]['args'][0], depth=4)
+    if not (src.startswith('parameter::Parameter::<T>::interpolated_value(&(*self).mix') and src.endswith('.0')):
+        return 'mix is %s, not self.mix.interpolated_value(..).0' % src[:80]
+    dd, _ = origin_def(b, dry_arg)
+    if not (dd and dd[0] == 'rv' and dd[2]['k'] == 'bin' and dd[2]['op'] == 'Sub' and describe(b, dd[2]['a']) == '1.0'):
+        return 'the dry factor is not sqrt(1.0 - mix)'
+    _, m2 = origin_def(b, dd[2]['b'])
+    if m2 != mix_local:
+        return 'the dry factor uses a different mix value than the wet factor'
+    dsrc = describe(b, dry_src, depth=3)
+    if dsrc != dst:
+        return 'the dry term is %s, not the input frame %s' % (dsrc[:60], dst)
+    return None
 
 
 def clamps(F, R):
